@@ -22,6 +22,9 @@ pub enum RegKind {
     ParseError,
     /// configuration script raises at registration time
     ConfigError,
+    /// the byte-identical script of the instance currently active under that name and
+    /// context (an idempotent re-deploy); a fresh valid script if none is active
+    SameAsActive,
 }
 
 #[derive(Clone, Debug, Serialize, Deserialize)]
@@ -42,7 +45,7 @@ pub struct C16Case {
 
 pub fn strategy() -> BoxedStrategy<C16Case> {
     let ev = prop_oneof![
-        6 => (0u8..2, 0u8..2, prop_oneof![6 => Just(RegKind::Valid), 1 => Just(RegKind::BadArity), 1 => Just(RegKind::ParseError), 1 => Just(RegKind::ConfigError)], prop_oneof![3 => Just(false), 1 => Just(true)])
+        6 => (0u8..2, 0u8..2, prop_oneof![6 => Just(RegKind::Valid), 2 => Just(RegKind::SameAsActive), 1 => Just(RegKind::BadArity), 1 => Just(RegKind::ParseError), 1 => Just(RegKind::ConfigError)], prop_oneof![3 => Just(false), 1 => Just(true)])
             .prop_map(|(name, ctx, kind, resume_head)| Ev::Reg { name, ctx, kind, resume_head }),
         2 => (0u8..2, 0u8..2).prop_map(|(name, ctx)| Ev::Unreg { name, ctx }),
         2 => (0u8..2, 0u8..2).prop_map(|(name, ctx)| Ev::Boom { name, ctx }),
@@ -67,7 +70,7 @@ const NAMES: &[&str] = &["h", "h.sub"];
 fn script(name: &str, version: usize, kind: &RegKind, resume_head: bool) -> String {
     let resume = if resume_head { "resume_from: \"head\"" } else { "" };
     match kind {
-        RegKind::Valid => format!(
+        RegKind::Valid | RegKind::SameAsActive => format!(
             r#"{{
   {resume}
   run: {{|frame|
@@ -123,6 +126,7 @@ fn run_in(case: &C16Case, nu: &mut Nu) -> Result<CaseInfo, Fail> {
     let mut probes: Vec<(WFrame, u8, Vec<usize>, Vec<usize>)> = Vec::new();
     let mut replaced_or_error_then_probe = false;
     let mut had_stop = false;
+    let mut identical_redeploy = false;
     // (context, name) pairs whose failing trigger is in the stream: a handler resuming from
     // head would replay it and stop at once, so such registrations resume from the tail
     let mut boomed: std::collections::BTreeSet<(u8, u8)> = Default::default();
@@ -156,9 +160,17 @@ fn run_in(case: &C16Case, nu: &mut Nu) -> Result<CaseInfo, Fail> {
         match ev {
             Ev::Reg { name, ctx, kind, resume_head } => {
                 let n = NAMES[*name as usize];
-                let version = insts.len() + 1;
-                let valid = *kind == RegKind::Valid;
-                let resume_head = &(*resume_head && !boomed.contains(&(*ctx, *name)));
+                let mut version = insts.len() + 1;
+                let valid = matches!(kind, RegKind::Valid | RegKind::SameAsActive);
+                let mut resume_head = *resume_head && !boomed.contains(&(*ctx, *name));
+                if *kind == RegKind::SameAsActive {
+                    if let Some(ai) = active.get(&(*ctx, *name)) {
+                        version = insts[*ai].version;
+                        resume_head = insts[*ai].resume_head;
+                        identical_redeploy = true;
+                    }
+                }
+                let resume_head = &resume_head;
                 let reg = nu.append(&format!("{n}.register"), ctxs[*ctx as usize], Some(script(n, version, kind, *resume_head).as_bytes()), None)?;
                 let prev = active.remove(&(*ctx, *name));
                 if prev.is_some() {
@@ -342,6 +354,7 @@ fn run_in(case: &C16Case, nu: &mut Nu) -> Result<CaseInfo, Fail> {
         (case.delay_announce_ms > 0, "announce-step-delayed"),
         (had_stop, "some-instance-stopped"),
         (insts.iter().any(|i| !i.valid), "invalid-registration"),
+        (identical_redeploy, "re-register-with-identical-script"),
     ] {
         if on {
             labels.push(name.to_string());
@@ -366,7 +379,7 @@ pub fn run(tier: Tier, seed: u64, replay: Option<&std::path::Path>) -> i32 {
         25,
         strategy,
         run_case,
-        "event sequences (1..13) over two handler names and two contexts: register (valid, closure without parameter, parse error, configuration script that raises; resume tail or head), re-register, unregister, a trigger that makes the closure fail, probes; after every valid registration a probe is appended the moment `<name>.registered` becomes visible; the handler's subscribe and announce steps are optionally delayed by 5 or 20 ms through the verif sync points. Oracle: every probe appended after `.registered` is processed (8 s bound); per instance at most one `.registered`, exactly one `.unregistered` with its id (carrying an error iff it stopped on one) for every stop reason and none while active, nothing stamped with it after its `.unregistered`; every probe is answered by exactly the active instances of its context, with the content of their own script version. Non-trivial = a replacement or an error stop followed by a probe, or a delayed subscribe step. Distinct by case hash.",
+        "event sequences (1..13) over two handler names and two contexts: register (valid, the byte-identical script of the active instance, closure without parameter, parse error, configuration script that raises; resume tail or head), re-register, unregister, a trigger that makes the closure fail, probes; after every valid registration a probe is appended the moment `<name>.registered` becomes visible; the handler's subscribe and announce steps are optionally delayed by 5 or 20 ms through the verif sync points. Oracle: every probe appended after `.registered` is processed (8 s bound); per instance at most one `.registered`, exactly one `.unregistered` with its id (carrying an error iff it stopped on one) for every stop reason and none while active, nothing stamped with it after its `.unregistered`; every probe is answered by exactly the active instances of its context, with the content of their own script version. Non-trivial = a replacement or an error stop followed by a probe, or a delayed subscribe step. Distinct by case hash.",
         vec!["absence of answers from stopped instances is observed until 25 ms after the last probe was answered".to_string()],
         2,
     )
